@@ -307,8 +307,9 @@ def write_evidence(prop_id, tier, seed, level, stats, rule, wall_s, violations, 
         'wall_s': round(wall_s, 2),
         'violations': int(violations),
     }
-    os.makedirs(os.path.join(VERIF, 'evidence'), exist_ok=True)
-    path = os.path.join(VERIF, 'evidence', f'{prop_id}.json')
+    evdir = os.environ.get('SQV_EVIDENCE_DIR') or os.path.join(VERIF, 'evidence')
+    os.makedirs(evdir, exist_ok=True)
+    path = os.path.join(evdir, f'{prop_id}.json')
     tmp = path + '.tmp'
     with open(tmp, 'w', encoding='utf-8') as f:
         json.dump(json.loads(jdump(doc)), f, indent=1, ensure_ascii=True)
@@ -318,7 +319,7 @@ def write_evidence(prop_id, tier, seed, level, stats, rule, wall_s, violations, 
 
 
 def write_replay(prop_id, failure, found_dir=None):
-    found_dir = found_dir or os.path.join(VERIF, 'replays', 'found', prop_id)
+    found_dir = found_dir or os.path.join(os.environ.get('SQV_FOUND_DIR') or os.path.join(VERIF, 'replays', 'found'), prop_id)
     os.makedirs(found_dir, exist_ok=True)
     doc = {'property': prop_id, 'signature': failure.signature, 'message': failure.message[:2000], 'case': failure.case}
     text = jdump(doc)
